@@ -303,13 +303,17 @@ pub fn block_skeletons(depth: usize) -> Vec<String> {
 
 pub fn one_line_programs() -> Vec<String> {
     // (opening, closing) pairs of one-line block constructs using counter / flag variable `v`
+    // the bounds depend on the variable (I: 2 rounds, J: 3 rounds, other steps), so that state shared
+    // by mistake between two constructs of one line (they have the same row) shows in the output
     let open_close = |k: usize, v: &str| -> (String, String) {
+        let n = if v == "I" { 2 } else { 3 };
+        let st = if v == "I" { 1 } else { 2 };
         match k {
-            0 => (format!("FOR {v} = 1 TO 2"), format!("NEXT {v}")),
-            1 => (format!("FOR {v} = 2 TO 1 STEP -1"), "NEXT".to_string()),
-            2 => (format!("{v} = 0: WHILE {v} < 2: {v} = {v} + 1"), "WEND".to_string()),
-            3 => (format!("{v} = 0: DO WHILE {v} < 2: {v} = {v} + 1"), "LOOP".to_string()),
-            4 => (format!("{v} = 0: DO: {v} = {v} + 1"), format!("LOOP UNTIL {v} >= 2")),
+            0 => (format!("FOR {v} = 1 TO {n}"), format!("NEXT {v}")),
+            1 => (format!("FOR {v} = {} TO 1 STEP -{st}", 2 * n), "NEXT".to_string()),
+            2 => (format!("{v} = 0: WHILE {v} < {n}: {v} = {v} + 1"), "WEND".to_string()),
+            3 => (format!("{v} = 0: DO WHILE {v} < {n}: {v} = {v} + 1"), "LOOP".to_string()),
+            4 => (format!("{v} = 0: DO: {v} = {v} + 1"), format!("LOOP UNTIL {v} >= {n}")),
             5 => (format!("SELECT CASE {v}: CASE 0, 1, 2"), "CASE ELSE: PRINT \"else\": END SELECT".to_string()),
             _ => (format!("IF {v} >= 0 THEN"), String::new()),
         }
